@@ -169,3 +169,28 @@ def stmt_lists(node: ast.AST) -> Iterable[List[ast.stmt]]:
     if isinstance(node, ast.Try):
         for h in node.handlers:
             yield h.body
+
+
+_LOG_ROOTS = {"log", "logger", "logging", "warnings", "_log", "LOG"}
+
+
+def is_noise(st: ast.AST) -> bool:
+    """A statement with no effect on any property: a bare constant (stray string / `...`), `pass`, or a call on a logger
+    (`log.debug(...)`, `logging.warning(...)`, `warnings.warn(...)`, `print(...)`) whose arguments call nothing."""
+    if isinstance(st, ast.Pass):
+        return True
+    if isinstance(st, ast.Expr) and isinstance(st.value, ast.Constant):
+        return True
+    if isinstance(st, ast.Expr) and isinstance(st.value, ast.Call):
+        c = st.value
+        root = c.func
+        while isinstance(root, ast.Attribute):
+            root = root.value
+        if isinstance(root, ast.Name) and (root.id in _LOG_ROOTS or (root.id == "print" and isinstance(c.func, ast.Name))):
+            return not any(isinstance(x, ast.Call) for a in list(c.args) + [k.value for k in c.keywords] for x in ast.walk(a))
+    return False
+
+
+def effective(body) -> list:
+    """the statements of a block that can matter (noise removed)"""
+    return [st for st in body if not is_noise(st)]
